@@ -2,13 +2,16 @@
       line filters (|= != |~ !~ with a string, |= != with ip("...")), pattern, line_format, unpack, decolorize,
       drop / keep with label names, distinct
     with any number of stages in any order:  parse_pipeline (print sts ++ r) = sts, consuming exactly the printed tokens. *)
-From LogQLV Require Import Base.Bytes Base.FloatX Model.Tables Model.Syntax Model.Parser Proofs.ParserP.
+From LogQLV Require Import Base.Bytes Base.FloatX Model.Tables Model.Syntax Model.Parser Proofs.ParserP Proofs.PredP.
 From Coq Require Import Lia.
 
 Section Pipeline.
   Variable anch : bytes -> bool.
   Variable re_names : bytes -> option (list bytes).
   Notation str_tok := (str_tok anch re_names).
+  (** label-filter predicates are printed with empty texts for their numeric literals: the parser reads the values the tokens carry,
+      never those texts (PredP proves the round trip for arbitrary texts) *)
+  Notation print_pred := (print_pred anch re_names (fun _ => []) (fun _ => []) (fun _ => [])).
 
   Definition lineop_tok (o : binop) : ttype :=
     match o with OpEq => TPipeExact | OpRe => TPipeMatch | OpNotEq => TNotEq | _ => TNotRe end.
@@ -29,6 +32,7 @@ Section Pipeline.
     | SDrop ls [] | SKeep ls [] | SDistinct ls => ls <> []
     | SJson _ [] | SLogfmt _ [] => True
     | SLabelFormat rs ts => (rs <> [] \/ ts <> []) /\ NoDup (map snd rs ++ map fst ts)
+    | SLabelFilter p => wf_pred anch p
     | _ => False
     end.
 
@@ -60,6 +64,7 @@ Section Pipeline.
     | SJson ls _ => punct TPipe :: punct TJSON :: print_names ls
     | SLogfmt ls _ => punct TPipe :: punct TLogfmt :: print_names ls
     | SLabelFormat rs ts => punct TPipe :: punct TLabelFormat :: print_lf rs ts
+    | SLabelFilter p => punct TPipe :: print_pred p
     | _ => []
     end.
 
@@ -194,6 +199,7 @@ Section Pipeline.
     match s with
     | SDrop _ _ | SKeep _ _ => forall t0 r', r = t0 :: r' -> (is_ty t0 TEq || is_ty t0 TNotEq || is_ty t0 TRe || is_ty t0 TNotRe) = false
     | SJson _ _ | SLogfmt _ _ => after_names r      (* `| json a b` reads b as a second label, `| json a = "x"` as an extraction *)
+    | SLabelFilter _ => ends_pred r                 (* an identifier, comma, and, or would continue the predicate *)
     | _ => True
     end.
 
@@ -202,15 +208,26 @@ Section Pipeline.
     | SDrop ls _ | SKeep ls _ | SDistinct ls => length ls
     | SJson ls _ | SLogfmt ls _ => S (length ls)
     | SLabelFormat rs ts => length rs + length ts
+    | SLabelFilter p => S (psize p)
     | _ => 0
     end.
+
+  (** a predicate starts with a label name or an opening parenthesis *)
+  Lemma pred_head q : wf_pred anch q -> exists t1 r1, print_pred q = t1 :: r1 /\ (ty t1 = TIdent \/ ty t1 = TOpenParen).
+  Proof.
+    induction q as [m|l o v|l o ns|l o n|l o pat|a IHa o b IHb|a IHa]; intro Hw; cbn [PredP.print_pred].
+    1-5: eexists; eexists; split; [reflexivity|left; reflexivity].
+    - assert (Hwa : wf_pred anch a) by (destruct o; cbn [wf_pred] in Hw; try contradiction; tauto).
+      destruct (IHa Hwa) as [t1 [r1 [E H]]]. rewrite E. cbn [app]. eexists; eexists; split; [reflexivity|exact H].
+    - eexists; eexists; split; [reflexivity|right; reflexivity].
+  Qed.
 
   Lemma stage_step s : forall f au acc p r, simple_stage s -> (stage_size s <= f)%nat -> follows_ok s r ->
     parse_pipeline (S f) au acc {| prev := p; rest := print_stage s ++ r |} =
     parse_pipeline f au (acc ++ [s]) {| prev := rev (print_stage s) ++ p; rest := r |}.
   Proof.
     intros f au acc p r Hs Hf [Hnc Hfo].
-    destruct s as [o v ip|jl je|ll le| | |pt| |lt| | |rs ts|ls ms|ls ms|ls]; cbn in Hs; try contradiction.
+    destruct s as [o v ip|jl je|ll le| | |pt| |lt| |q|rs ts|ls ms|ls ms|ls]; cbn [simple_stage] in Hs; try contradiction.
     - (* line filter *)
       destruct ip.
       + destruct Hs as [-> | ->]; cbn; reflexivity.
@@ -229,6 +246,19 @@ Section Pipeline.
     - cbn. reflexivity.
     - cbn. reflexivity.
     - cbn. reflexivity.
+    - (* label filter *)
+      cbn [print_stage stage_size] in *. destruct (pred_head q Hs) as [t1 [r1 [E Hty]]].
+      cbn [app parse_pipeline]. unfold bind at 1, peek at 1. cbn [rest].
+      change (is_ty (punct TPipe) TPipeExact || is_ty (punct TPipe) TPipeMatch || is_ty (punct TPipe) TNotEq || is_ty (punct TPipe) TNotRe) with false.
+      change (is_ty (punct TPipe) TPipe) with true. cbv iota.
+      unfold bind at 1, next at 1. cbn [rest prev]. unfold bind at 1, next at 1. cbn [rest prev]. rewrite E. cbn [app].
+      assert (Hdisp : forall k, (k = TJSON \/ k = TLogfmt \/ k = TRegexp \/ k = TPattern \/ k = TUnpack \/ k = TLineFormat \/ k = TDecolorize) -> is_ty t1 k = false).
+      { intros k Hk. unfold is_ty. destruct Hty as [-> | ->]; repeat (destruct Hk as [-> | Hk]; [reflexivity|]); subst; reflexivity. }
+      rewrite !Hdisp by tauto.
+      assert (Hsel : (is_ty t1 TIdent || is_ty t1 TOpenParen) = true) by (unfold is_ty; destruct Hty as [-> | ->]; reflexivity).
+      rewrite Hsel. unfold bind at 1, unread at 1. cbn [prev rest]. unfold bind at 1.
+      change (t1 :: r1 ++ r) with ((t1 :: r1) ++ r). rewrite <- E. rewrite (pred_print_lemma anch re_names _ _ _ q f _ r Hs); [|lia|exact Hfo].
+      cbn [rev]. rewrite <- app_assoc. reflexivity.
     - destruct Hs as [Hne Hnd]. cbn [print_stage app parse_pipeline]. cbn [stage_size] in Hf.
       unfold bind at 1, peek at 1. cbn [rest]. cbn.
       unfold bind at 1. rewrite (label_format_print rs ts f [] [] _ r Hne Hf Hnc Hnd); [|intros d _ []]. cbn [app]. rewrite <- !app_assoc. reflexivity.
